@@ -4,6 +4,7 @@ EXTENDS PubServer, PubNames
 
 Deltas1 == SmallDeltas(1)
 Deltas2 == SmallDeltas(2)
+Deltas3 == SmallDeltas(3)
 DeltasAll == DeltasOf(Uris)
 
 \* the last request is an observation: states that differ only there are
